@@ -59,6 +59,13 @@ Outer(h) == {
   \* a local binding whose value is null hides an outer binding of the same name (context entry, parameter, loop variable)
   Path(Cx(<<En("x", h), En("r", Lst(<<X, Y>>))>>), "r"), Cx(<<En("y", h), En("r", Bin("add", X, Y))>>),
   Call(Fn(<<"x">>, Lst(<<X, Y>>)), <<h>>), For(<<It("x", h)>>, Lst(<<X, Y>>)), Flt(Lst(<<Cx(<<En("x", h)>>)>>), Bin("eq", X, Nu)),
+  \* a function bound to a name that also spells a built-in function, invoked: the binding wins (context entry, parameter,
+  \* loop variable; positional and named arguments)
+  Path(Cx(<<En("sum", Fn(<<"u", "w">>, Bin("mul", U, Wv))), En("r", Call(Nm("sum"), <<h, Two>>))>>), "r"),
+  Path(Cx(<<En("sum", Fn(<<"u", "w">>, Bin("sub", U, Wv))), En("r", CallN(Nm("sum"), <<[p |-> "w", v |-> h], [p |-> "u", v |-> Two]>>))>>), "r"),
+  Call(Fn(<<"abs">>, Call(Nm("abs"), <<h>>)), <<Fn(<<"u">>, Lst(<<U, One>>))>>),
+  For(<<It("max", Lst(<<Fn(<<"u", "w">>, Lst(<<Wv, U>>))>>))>>, Call(Nm("max"), <<h, One>>)),
+  Path(Cx(<<En("count", Fn(<<"u">>, Bin("add", U, One))), En("r", Lst(<<Call(Nm("count"), <<h>>), Nm("count")>>))>>), "r"),
   \* equality of composite values whose members are null for different reasons
   Bin("eq", Cx(<<En("a", h), En("b", One)>>), Cx(<<En("a", Nu), En("b", One)>>)), Bin("eq", Lst(<<h, One>>), Lst(<<Nu, One>>)),
   Call(Fn(<<"u">>, Lst(<<U, h>>)), <<X>>),
